@@ -15,7 +15,7 @@ from pathlib import Path
 
 import front
 
-LEAN_MODULE = "PydjinniModel.Props.C03"
+LEAN_MODULE = "PydjinniModel.Props.C03All"
 THEOREMS = [
     "Pydjinni.Front.mem_addIncludes_iff",
     "Pydjinni.Front.mem_evalTargets_iff",
@@ -28,6 +28,17 @@ THEOREMS = [
     "Pydjinni.Front.stripL_suffix",
     "Pydjinni.Front.spanLen_le",
     "Pydjinni.Front.idLen_le",
+    "Pydjinni.Front.dataType_roundtrip",
+    "Pydjinni.Front.dataType_roundtrip_length",
+    "Pydjinni.Front.dataArgs_roundtrip",
+    "Pydjinni.Front.typeRefL_roundtrip",
+    "Pydjinni.Front.dataType_sound",
+    "Pydjinni.Front.dataArgs_sound",
+    "Pydjinni.Front.dataType_consumes_prefix",
+    "Pydjinni.Front.dataType_is_data",
+    "Pydjinni.Front.dataType_follow_necessary",
+    "Pydjinni.Front.dataType_mono",
+    "Pydjinni.Front.field_roundtrip",
 ]
 LEVEL = "proof"
 
